@@ -328,14 +328,10 @@ def run_impl(case):
             return {"pixel": once, "twice": [[float(x) for x in row] for row in det.pixel.array], "dtype": str(det.pixel.array.dtype)}
         if kind == "ipc":
             from pyxel.models.charge_collection import simple_ipc
-            from pyxel.models.charge_collection.inter_pixel_capacitance import ipc_kernel
 
             det = pyx.make_detector("CMOS", r, c)
             det.pixel.array = np.array(case["pixel"], dtype=float)
-            try:
-                kernel = ipc_kernel(case["c"], case["d"], case["a"]).tolist()
-            except ValueError:
-                kernel = None
+            kernel = ipc_weights(case["c"], case["d"], case["a"])
             simple_ipc(det, coupling=case["c"], diagonal_coupling=case["d"], anisotropic_coupling=case["a"])
             return {"pixel": det.pixel.array.tolist(), "kernel": kernel}
         if kind == "cdm":
@@ -383,6 +379,35 @@ def run_impl(case):
         raise
     except Exception as e:  # noqa: BLE001
         return {"error": common.err_kind(e), "msg": f"{type(e).__name__}: {e}"[:300]}
+
+
+def ipc_weights(cpl, d, a):
+    """the nine coupling weights the model applies, or None when the couplings are refused.
+    Taken from the kernel function named in the property's anchors when it is importable under its public name;
+    otherwise MEASURED through the public model: the response of `simple_ipc` to a unit charge in the middle of a
+    5×5 frame is the kernel (the mean-valued boundary only reaches the outer ring)."""
+    import numpy as np
+    import pyx
+
+    try:
+        import importlib
+
+        fn = getattr(importlib.import_module("pyxel.models.charge_collection.inter_pixel_capacitance"), "ipc_kernel", None)
+    except ImportError:
+        fn = None
+    try:
+        if fn is not None:
+            return np.asarray(fn(cpl, d, a), dtype=float).tolist()
+        from pyxel.models.charge_collection import simple_ipc
+
+        det = pyx.make_detector("CMOS", 5, 5)
+        frame = np.zeros((5, 5))
+        frame[2, 2] = 1.0
+        det.pixel.array = frame
+        simple_ipc(det, coupling=cpl, diagonal_coupling=d, anisotropic_coupling=a)
+        return det.pixel.array[1:4, 1:4][::-1, ::-1].tolist()
+    except ValueError:
+        return None
 
 
 def thermal_velocity(temperature):
